@@ -121,8 +121,9 @@ def py_oracle(hier: Sequence[Sequence[int]], members: Sequence[Dict[str, Optiona
                         own = vars(k).get(n)
                         if own is not None:
                             fn = own.fget if isinstance(own, property) else own
-                            if getattr(fn, '__doc__', None):
-                                d = inspect.cleandoc(fn.__doc__)
+                            # (an empty docstring is a docstring: the lookup ends there and the member counts as undocumented)
+                            if getattr(fn, '__doc__', None) is not None:
+                                d = inspect.cleandoc(fn.__doc__) or None
                                 break
                     docs[n] = d
                     gd = inspect.getdoc(v) or None
@@ -155,7 +156,7 @@ def member_pattern(idx: int, n: int) -> List[Dict[str, Optional[str]]]:
     for i in range(n):
         d: Dict[str, Optional[str]] = {}
         if (a >> i) & 1:
-            d['m'] = ('doc m in C%d' % i) if (a >> (i + 5)) & 1 else None
+            d['m'] = ('doc m in C%d' % i) if (a >> (i + 5)) & 1 else ('' if (a >> (i + 3)) & 3 == 0 else None)
         if (a >> (i + 10)) & 1:
             d['k'] = 'doc k in C%d' % i
         out.append(d)
@@ -277,7 +278,7 @@ def _st_multi():
             for name in draw(st.lists(st.sampled_from(['m', 'k', 'p', 'v', 'w']), max_size=4, unique=True)):
                 kind = {'p': 'property', 'v': 'var', 'w': 'var'}.get(name, 'method')
                 kd[name] = kind
-                d[name] = None if (kind == 'var' or draw(st.booleans())) else 'doc %s in C%d' % (name, i)
+                d[name] = None if kind == 'var' else draw(st.sampled_from([None, None, None, 'doc %s in C%d' % (name, i), 'doc %s in C%d' % (name, i), 'doc %s in C%d' % (name, i), '', '   ']))
             members.append(d)
             kinds.append(kd)
         style = [draw(st.integers(0, 3)) for _ in range(n)]
